@@ -99,7 +99,7 @@ def _wake_orders(repo):
     out += S.check_wait_clear(repo, "timeout.TimeoutExecutor._job_loop", ["C03", "C09", "C11"], ["_job_loop_iter"])
     out += S.check_no_foreign_clear(repo, {"retry._submit_wait", "poll._poll_loop", "throttle._submit_loop",
                                            "timeout.TimeoutExecutor._job_loop", "throttle.ThrottleExecutor._block_until_ready"},
-                                    ["C03", "C05", "C07", "C08", "C09"])
+                                    ["C03", "C05", "C07", "C08", "C09", "C11"])      # C11: a cleared shutdown wake-up leaves shutdown(wait=True) in join()
     # blocking submit of the throttle executor: a waiter other than the worker
     out += S.check_sole_waiter(repo, {"_event", "_poll_event", "_submit_event", "_jobs_write"},
                                {"retry._submit_wait", "poll._poll_loop", "throttle._submit_loop", "timeout.TimeoutExecutor._job_loop"}, ["C07", "C03"])
